@@ -116,7 +116,10 @@ def o_suffix(template: str, tail: str, excl=()) -> bool:
 def o_valid(template: str, dummy: bool = False, excl=()) -> bool:
     """sanity for the templates themselves: they parse, serialize and are reported valid"""
     a = PP.parse(template)
-    return isinstance(a.serialize(), str) and is_sequence_valid(template) is True
+    if not isinstance(a.serialize(), str):
+        return False
+    # is_sequence_valid() speaks about single peptides (it goes through sequence_to_annotation, which rejects multi-chain input)
+    return is_sequence_valid(template) is True if isinstance(a, PP.ProFormaAnnotation) else True
 
 
 def o_deferred(slot: str, tail: str, dummy: bool = False, form: str = "xq%s", excl=()) -> bool:
